@@ -24,7 +24,9 @@ pp.optim.functional.modjac / the RobustModel on the same parameters (their corre
     have moved by the solution of the system restricted to them.
 Frozen parameters (repaired in /repo a845d9f: before, any parameter with requires_grad=False made GN.step /
 LM.step raise in update_parameter): the witnesses of that defect are directed regression cases, both parameter
-orders and both optimizers; a recurrence is a VIOLATION (tie: raise-disagreement; oracle: frozen-raises)."""
+orders and both optimizers; a recurrence is a VIOLATION (tie: raise-disagreement; oracle: frozen-raises).
+Expanded weights (repaired in /repo f84fc28: normalize_RWJ raised for a documented B*N*d*d weight with stride 0): witnesses are
+regression cases under the key normalize_RWJ:expanded-weight; stride-0 weights of every documented shape are generated."""
 import io, contextlib, math, random, json
 import math
 from ..common import *
@@ -205,8 +207,12 @@ def make_optimizer(pp, torch, spec, net):
             big = torch.zeros(tuple(t.shape[:-1]) + (2 * t.shape[-1],), dtype=t.dtype)
             big[..., ::2] = t
             return big[..., ::2]
-        if L == 'expand' and t.dim() == 3 and all(torch.equal(t[0], t[i]) for i in range(t.shape[0])):
-            return t[0].expand(t.shape)
+        if L == 'expand' and t.dim() >= 3 and all(torch.equal(t[0], t[i]) for i in range(t.shape[0])):
+            return t[0].expand(t.shape)           # stride 0 in the leading batch dimension: N*d*d from d*d, B*N*d*d from N*d*d
+        if L == 'expand_all' and t.dim() >= 3:
+            blocks = t.reshape(-1, t.shape[-2], t.shape[-1])
+            if all(torch.equal(blocks[0], blocks[i]) for i in range(blocks.shape[0])):
+                return blocks[0].expand(t.shape)  # stride 0 in every batch dimension
         return t
 
     def weights(ws):
@@ -942,14 +948,14 @@ def gen_spec(rng, opt=None, exact=None, **force):
     spec['call_form'] = force.get('call_form') or rng.choice(['pos', 'pos', 'kw', 'pos3'])
     spec['omit_none'] = rng.random() < 0.5
     spec['omit_defaults'] = rng.random() < 0.5
-    # memory layouts (same values): non-contiguous parameters / targets / weights, expanded (stride 0) weights N*d*d
+    # memory layouts (same values): non-contiguous parameters / targets / weights, expanded (stride 0) weights of every documented batch shape
     spec['layout'] = 'strided' if rng.random() < 0.3 else None
-    spec['w_layout'] = rng.choice([None, None, 'mT', 'stride2', 'expand'])
-    if spec['w_layout'] == 'expand':
+    spec['w_layout'] = rng.choice([None, None, 'mT', 'stride2', 'expand', 'expand_all'])
+    if spec['w_layout'] in ('expand', 'expand_all'):
         for w in (spec.get('w_init') or []) + (spec.get('w_step') or []):
-            if len(w['shape']) == 3:
-                dd = w['shape'][-1] ** 2
-                w['data'] = w['data'][:dd] * w['shape'][0]
+            if len(w['shape']) >= 3:
+                blk = w['shape'][-1] ** 2 if spec['w_layout'] == 'expand_all' else len(w['data']) // w['shape'][0]
+                w['data'] = w['data'][:blk] * (len(w['data']) // blk)
     # history: the judged step() is the second call on the optimizer, after a call with another step weight / target
     wr = force['warm'] if 'warm' in force else (rng.random() < 0.3)
     spec['warm'] = dict(weight=rng.random() < 0.6, target=rng.random() < 0.5) if wr else None
@@ -1040,7 +1046,7 @@ def wexp_cases(rng, n):
     return cases
 
 
-def wexp_run(pp, torch, rshape, wshape, wdata):
+def wexp_run(pp, torch, rshape, wshape, wdata, expand=False):
     from pypose.optim.optimizer import RobustModel
     rm = RobustModel(torch.nn.Identity())
     n = 1
@@ -1048,6 +1054,8 @@ def wexp_run(pp, torch, rshape, wshape, wdata):
         n *= s
     r = torch.zeros(rshape, dtype=torch.float64)
     w = torch.tensor(wdata, dtype=torch.float64).reshape(wshape)
+    if expand and len(wshape) >= 3:
+        w = w[0].expand(wshape)            # stride 0 in the leading batch dimension (wdata repeats its first block)
     try:
         _, wd, _ = rm.normalize_RWJ([r], [w], [torch.zeros(n, 1, dtype=torch.float64)])
         return [[float(v) for v in row] for row in wd.tolist()]
@@ -1055,14 +1063,14 @@ def wexp_run(pp, torch, rshape, wshape, wdata):
         return None
 
 
-def wexp_oracle(pp, torch, rshape, wshape, wdata):
+def wexp_oracle(pp, torch, rshape, wshape, wdata, expand=False):
     """documented shapes only: the block-diagonal weight equals the broadcast weight"""
     d = rshape[-1]
     batch = rshape[:-1]
     m = len(wshape) - 2
     if m < 0 or wshape[-2:] != [d, d] or wshape[:-2] != batch[len(batch) - m:]:
         return None
-    got = wexp_run(pp, torch, rshape, wshape, wdata)
+    got = wexp_run(pp, torch, rshape, wshape, wdata, expand)
     w = torch.tensor(wdata, dtype=torch.float64).reshape(wshape)
     full = w.expand(tuple(batch) + (d, d)).reshape(-1, d, d)
     exp = torch.block_diag(*[full[t] for t in range(full.shape[0])]).tolist()
@@ -1083,6 +1091,21 @@ REGRESSION_SPECS = [
                  dict(kind='E', g=0, shape=[1], data=[3.0], req=(order == 1), feat='raw')],
          res=[dict(shape=[3], nl='none')], **({'strategy': ('Constant', 0.5), 'lam0': 0.5, 'reject': 1} if o == 'LM' else {}))
     for o in ('GN', 'LM') for order in (0, 1)]
+
+
+def _spd(d, k):
+    return [[(2.0 + k if i == j else 0.5) for j in range(d)] for i in range(d)]
+
+
+# witnesses of the repaired expanded-weight defect (f84fc28: normalize_RWJ used w.view, which raised RuntimeError for a weight
+# of the documented shape B*N*d*d with stride 0 in B): residual (2,2,3), weight W.expand(2,2,3,3) with W of shape (2,3,3),
+# given at construction / at step(), both optimizers; also stride 0 in every batch dimension
+REGRESSION_SPECS += [
+    dict(kind='step', opt=o, exact=True, cseed=11, vectorize=False, target=False, single_out=True, regression_key='normalize_RWJ:expanded-weight',
+         params=[dict(kind='E', g=0, shape=[3], data=[1.0, -0.5, 0.25], req=True, feat='raw')], res=[dict(shape=[2, 2, 3], nl='none')],
+         w_layout=lay, **{where: [dict(shape=[2, 2, 3, 3], data=([v for k in range(2) for row in _spd(3, 0 if lay == 'expand_all' else k) for v in row] * 2))]},
+         **({'strategy': ('Constant', 0.5), 'lam0': 0.5, 'reject': 1} if o == 'LM' else {}))
+    for o in ('GN', 'LM') for where in ('w_init', 'w_step') for lay in ('expand', 'expand_all')]
 
 
 def directed_specs(rng, thorough):
@@ -1162,6 +1185,8 @@ def run_specs(ctx, pp, torch, specs, tag):
         ctx.count('solver-' + ('script' if spec.get('script') is not None else str(spec.get('solver')) +
                                ''.join('/%s=%s' % kv for kv in sorted((spec.get('solver_args') or {}).items()))))
         ctx.count('input-%s/call-%s%s' % (spec.get('inp_form', 'tensor'), spec.get('call_form', 'pos'), '/second-call' if spec.get('warm') else ''))
+        if spec.get('regression_key'):
+            ctx.count('regression-' + spec['regression_key'])
         if (spec.get('w_init') or spec.get('w_step')) and spec.get('w_layout'):
             ctx.count('weight-layout-' + spec['w_layout'])
         if spec.get('layout'):
@@ -1183,7 +1208,7 @@ def run_specs(ctx, pp, torch, specs, tag):
             why = None
             ctx.notes.append('oracle error %s: %s' % (type(e).__name__, str(e)[:200]))
         if why:
-            ctx.violation(viol_key(spec, why), why, spec)
+            ctx.violation(spec.get('regression_key') or viol_key(spec, why), why, spec)
         tolA, tolP = tolerances(spec)
         if tolA[1] == 0 and not exact_guard(spec, rec):
             ctx.count('exact-guard-fallback')
@@ -1222,12 +1247,16 @@ def run(ctx):
         for s in wshape:
             n *= s
         wdata = [dy(rng, 4, 4) for _ in range(n)]
-        out = wexp_run(pp, torch, rshape, wshape, wdata)
-        ctx.case(('wexp', tuple(rshape), tuple(wshape), tuple(wdata)), branch='weight-expansion' + ('' if out is not None else '-raises'))
-        c = dict(kind='wexp', rshape=rshape, wshape=wshape, wdata=wdata)
-        why = wexp_oracle(pp, torch, rshape, wshape, wdata)
+        # every third weight with a batch dimension is stored expanded (stride 0 in the leading dimension)
+        expand = len(wshape) >= 3 and wshape[0] > 1 and len(wmetas) % 3 == 0
+        if expand:
+            wdata = wdata[:n // wshape[0]] * wshape[0]
+        out = wexp_run(pp, torch, rshape, wshape, wdata, expand)
+        ctx.case(('wexp', tuple(rshape), tuple(wshape), tuple(wdata), expand), branch='weight-expansion' + ('-expanded-storage' if expand else '') + ('' if out is not None else '-raises'))
+        c = dict(kind='wexp', rshape=rshape, wshape=wshape, wdata=wdata, expand=expand)
+        why = wexp_oracle(pp, torch, rshape, wshape, wdata, expand)
         if why:
-            ctx.violation('normalize_RWJ:weight-expansion', why, c)
+            ctx.violation('normalize_RWJ:expanded-weight' if expand else 'normalize_RWJ:weight-expansion', why, c)
         wmetas.append(c)
         wlits.append('(%s, %s, %s, %s)' % (nat(len(wmetas) - 1), natl(rshape), tens_lit(wshape, wdata), opt_lit(out, mat_lit)))
     wfiles = [('wexp_%03d' % si, HDR + 'Eval vm_compute in wexp_bad %s.\n' % coq_list(sh)) for si, sh in enumerate(shard(wlits, 60))]
@@ -1267,7 +1296,8 @@ def run(ctx):
         why = replay(ctx, c)
         if why:
             m['explained'] = True
-            key = 'normalize_RWJ:weight-expansion' if c.get('kind') == 'wexp' else viol_key(c, why)
+            key = (('normalize_RWJ:expanded-weight' if c.get('expand') else 'normalize_RWJ:weight-expansion') if c.get('kind') == 'wexp'
+                   else (c.get('regression_key') or viol_key(c, why)))
             ctx.violation(key, why, c)
             if key in ctx.known:
                 continue
@@ -1294,7 +1324,7 @@ def replay(ctx, case):
     pp = import_pypose()
     import torch
     if case.get('kind') == 'wexp':
-        return wexp_oracle(pp, torch, case['rshape'], case['wshape'], case['wdata'])
+        return wexp_oracle(pp, torch, case['rshape'], case['wshape'], case['wdata'], case.get('expand', False))
     if case.get('kind') == 'step':
         spec = json.loads(json.dumps(case))
         # tuples became lists in JSON
